@@ -45,7 +45,8 @@ RULE = ("histories of 1-9 operations over four save locations (default <label>/p
         "content with and without cloudpickle_fallback, each possibly interrupted at any primitive step (write cut at "
         "0, 1, mid, len-1 bytes), Node.load into nodes of the same or another class (two function-node classes, a hand-written class and its subclass, "
         "Workflow, and two DISTINCT Function subclasses sharing module and qualified name; every ordered pair "
-        "saver/loader via explicit name, default name and autoload), construction with autoload / "
+        "saver/loader via explicit name, default name and autoload), the EMPTY graph (a Workflow whose child was "
+        "removed: len 0, falsy) as saved state in the model's state 0 of class W, construction with autoload / "
         "delete_existing_savefiles, delete_storage, foreign files; plus the exhaustive family prior-state x content x "
         "every crash point followed by load, autoload and delete.  Non-trivial = contains a failing or interrupted "
         "save, a class-mismatching load or a delete; distinct = distinct op lists")
@@ -285,6 +286,11 @@ def _make(cls, v=0, kind="ok"):
     if cls == "W":
         wf = Workflow(LABEL, autoload=None)
         wf.a = C19A(x=_value(kind, v))
+        if v == 0 and kind == "ok":
+            # state 0 of a Workflow = the EMPTY graph (populated, then emptied again): a legal composite
+            # whose len() is 0, i.e. an object that is falsy
+            wf.remove_child("a")
+            assert len(wf) == 0
         return wf
     return CLASSES[cls](label=LABEL, x=_value(kind, v), autoload=None)
 
@@ -646,6 +652,8 @@ def _rand_case(rng):
                 op[2] = last_cls[loc]           # mostly the same graph saved again
             if op[2] in LOCAL:
                 op[5] = True
+            if op[2] == "W" and op[4] == "ok" and rng.random() < 0.35:
+                op[3] = 0                       # the emptied graph
             last_cls[loc] = op[2]
             ops.append(op)
         elif r < 0.66:
@@ -704,13 +712,35 @@ def _class_family():
     return out
 
 
+def _empty_family():
+    """a composite with ZERO children (a falsy object) as the saved state: over nothing / a populated graph / a
+    node of another class, completed or interrupted, read back through load(), load(filename=...), autoload"""
+    out = []
+    for loc in ("default", "sub", "rec"):
+        auto = [["ctor", "W", False, True]] if loc == "default" else []
+        for prior in ([], [["save", loc, "W", 2, "ok", True, None]], [["save", loc, "A", 2, "ok", True, None]],
+                      [["save", loc, "W", 2, "cloud", True, None]]):
+            for fb in (True, False):
+                out.append({"ops": prior + [["save", loc, "W", 0, "ok", fb, None], ["load", loc, "W", 60]] + auto
+                            + [["load", loc, "A", 60], ["delete", loc]]})
+        # the empty graph is the last good save while a later save dies / fails ...
+        for later in (["save", loc, "W", 3, "ok", True, [2, 1]], ["save", loc, "W", 3, "bad", True, None],
+                      ["save", loc, "W", 3, "cloud", True, [9, 0]]):
+            out.append({"ops": [["save", loc, "W", 0, "ok", True, None], later, ["load", loc, "W", 60]] + auto})
+        # ... or is itself cut before / after its commit step
+        for i in (2, 4, 5, 6):
+            out.append({"ops": [["save", loc, "W", 3, "ok", True, None], ["save", loc, "W", 0, "ok", True, [i, 2]],
+                                ["load", loc, "W", 60]] + auto})
+    return out
+
+
 def generate(ctx):
     rng = ctx.rng
     fam = _family(["default"] if ctx.quick else LOCS)
     if ctx.quick:
         fam = fam + rng.sample(_family(["flat", "rec", "sub"]), 120)
     cases, seen = [], set()
-    for c in _class_family() + fam:
+    for c in _class_family() + _empty_family() + fam:
         k = json.dumps(c, sort_keys=True)
         if k not in seen:
             seen.add(k)
